@@ -60,42 +60,58 @@ def FieldDecl.policy (f : FieldDecl V) (o : Opts) : Policy :=
   | some p => p
   | none => o.invalidValues
 
-/-! ### ParserField.parse_value — field.py:1012-1089 -/
+/-! ### ParserField.parse_value — field.py:1027-1111 -/
 
-/-- the conversion proper, field.py:1063-1089 -/
-def fieldConvert (W : DataWorld V) (o : Opts) (f : FieldDecl V) (t : Ty) (v : V) : M (Option V) := do
+/-- what `parse_value` hands back: a value, `unprovided`, or (only with `excluded_as_absent=True`) the
+`EXCLUDED` marker of a value the 'exclude' policy dropped (field.py:1022-1025) -/
+inductive PV (V : Type) where
+  | val (v : V)
+  | unprovided
+  | excluded
+
+def PV.ofOption : Option V → PV V
+  | some v => .val v
+  | none => .unprovided
+
+/-- the conversion proper, field.py:1078-1111 -/
+def fieldConvert (W : DataWorld V) (o : Opts) (f : FieldDecl V) (t : Ty) (v : V) (asAbsent : Bool) : M (PV V) := do
   enterCheck W.toWorld f.id
-  tryExcept (do let y ← isolated (W.conv t v); pure (some y)) (fun e => do
+  tryExcept (do let y ← isolated (W.conv t v); pure (PV.val y)) (fun e => do
     let err := wrap Site.fieldValue e (some f.id)
     match f.policy o with
-    | .exclude => do
-      if f.isRequired o then handleError o err else pure ()
-      pure f.default
-    | .preserve => pure (some v)
+    | .exclude =>
+      if f.isRequired o then do
+        -- a required field cannot be excluded
+        handleError o err
+        pure (PV.ofOption f.default)
+      else if asAbsent then pure .excluded      -- the caller handles the field as one that was not given
+      else pure (PV.ofOption f.default)
+    | .preserve => pure (.val v)
     | .throw => do
       handleError o err
-      pure none)
+      pure .unprovided)
 
-def parseValue (W : DataWorld V) (L : Legacy) (o : Opts) (f : FieldDecl V) (v : V) : M (Option V) := do
+def parseValue (W : DataWorld V) (L : Legacy) (o : Opts) (f : FieldDecl V) (v : V) (asAbsent : Bool := false) :
+    M (PV V) := do
   if f.disc && !W.isNone v then
-    -- field.py:1026-1057
+    -- field.py:1041-1072
     let d ← if W.isMapping v then pure (some v)
       else tryExcept (do let y ← W.toDict v; pure (some y)) (fun e => do
         handleError o (wrap Site.fieldDiscDict e (some f.id)); pure none)
     match d with
-    | none => pure none
+    | none => pure .unprovided
     | some d => do
       let sel ← if L.discLookup then W.discLookup f.id d
         else tryExcept (W.discLookup f.id d) (fun _ => pure none)
       match sel with
-      | some t => fieldConvert W o f t d
+      | some t => fieldConvert W o f t d asAbsent
       | none => do
         handleError o (mk K.discriminator Site.discMismatch (some f.id))
-        pure none
+        pure .unprovided
   else
     match f.ty with
-    | none => pure (some v)
-    | some t => fieldConvert W o f t v
+    | none => pure (.val v)
+    | some t => fieldConvert W o f t v asAbsent
 
 /-! ### BaseParser.parse_addition — base.py:390-421 -/
 
@@ -130,52 +146,85 @@ structure Acc (V : Type) where
   addition : List (Nat × V) := []
   deps : Bool := false
   used : List Nat := []
+  excluded : List Nat := []         -- names dropped by the 'exclude' policy (data-first)
 
 def Acc.has (a : Acc V) (name : Nat) : Bool := a.result.any (fun p => p.1 == name)
-def Acc.get? (a : Acc V) (name : Nat) : Option V := (a.result.find? (fun p => p.1 == name)).map (·.2)
 def Acc.set (a : Acc V) (name : Nat) (v : V) : Acc V :=
   { a with result := a.result.filter (fun p => p.1 != name) ++ [(name, v)] }
 
-/-! ### data_first_parse — base.py:423-510 -/
+/-! ### data_first_parse — base.py:423-560 (two phases since the C06 repair) -/
 
-def dfItems (W : DataWorld V) (L : Legacy) (o : Opts) (P : ParserDecl V) (excluded : List Nat) :
-    List (Nat × V) → Acc V → M (Acc V)
-  | [], a => pure a
-  | (key, v) :: rest, a =>
-    -- `if not field or field.positional_only:` (base.py:446): the name of a positional-only parameter is an
-    -- ordinary additional key
+/-- one entry of `inputs`: (key or field name, field or none for an additional key, value, rank of the key in
+`field.all_aliases`) -/
+structure Given (V : Type) where
+  name : Nat
+  field : Option (FieldDecl V)
+  value : V
+  rank : Nat
+
+/-- `inputs[name] = entry` on an insertion-ordered dict: an existing key keeps its position -/
+def setGiven (g : Given V) : List (Given V) → List (Given V)
+  | [] => [g]
+  | x :: xs => if x.name == g.name then g :: xs else x :: setGiven g xs
+
+def rankOf (f : FieldDecl V) (key : Nat) : Nat := f.aliases.idxOf key
+
+/-- phase 1 (base.py:447-469): what was given, in input order; of several accepted keys the one of least rank
+is used; a duplicate that differs (raw `!=`, protected) is remembered as a conflict -/
+def dfScan (W : DataWorld V) (L : Legacy) (P : ParserDecl V) :
+    List (Nat × V) → List (Given V) → List Nat → M (List (Given V) × List Nat)
+  | [], inputs, conflicts => pure (inputs, conflicts)
+  | (key, v) :: rest, inputs, conflicts =>
+    -- `if not field or field.positional_only:` the name of a positional-only parameter is an additional key
     match (getField P key).filter (fun f => !f.posOnly) with
-    | none => do
-      let add ← parseAddition W o P key v
-      dfItems W L o P excluded rest (match add with
-        | some x => { a with addition := a.addition ++ [(key, x)] } | none => a)
+    | none => dfScan W L P rest (setGiven ⟨key, none, v, 0⟩ inputs) conflicts
     | some f =>
-      if W.noInput f.id v then
-        dfItems W L o P excluded rest (match f.default with | some d => a.set f.id d | none => a)
-      else do
-        -- alias conflict: the stored (parsed) value against the raw duplicate
-        let dup ← match (if o.ignoreAliasConflicts then none else a.get? f.id) with
-          | none => pure false
-          | some old => do
-            let c ← aliasConflict W L old v
-            if c then handleError o (mk K.aliasConflict Site.aliasConflict (some f.id)) else pure ()
-            pure true
-        if dup || excluded.contains f.id then dfItems W L o P excluded rest a
-        else do
-          let parsed ← parseValue W L o f v
-          match parsed with
-          | none => dfItems W L o P excluded rest a
-          | some x => dfItems W L o P excluded rest { (a.set f.id x) with deps := a.deps || f.hasDeps }
+      let rank := rankOf f key
+      match inputs.find? (fun g => g.name == f.id) with
+      | some g => do
+        let c ← aliasConflict W L g.value v
+        let conflicts := if c && !conflicts.contains f.id then conflicts ++ [f.id] else conflicts
+        if rank ≥ g.rank then dfScan W L P rest inputs conflicts
+        else dfScan W L P rest (setGiven ⟨f.id, some f, v, rank⟩ inputs) conflicts
+      | none => dfScan W L P rest (setGiven ⟨f.id, some f, v, rank⟩ inputs) conflicts
 
-/-- required / default pass over the declared fields, base.py:475-489 -/
-def dfMissing (o : Opts) (excluded : List Nat) : List (FieldDecl V) → Acc V → M (Acc V)
+/-- phase 2 (base.py:471-516): the inputs in input order -/
+def dfItems (W : DataWorld V) (L : Legacy) (o : Opts) (P : ParserDecl V) (excluded : List Nat)
+    (conflicts : List Nat) : List (Given V) → Acc V → M (Acc V)
+  | [], a => pure a
+  | g :: rest, a =>
+    match g.field with
+    | none => do
+      let add ← parseAddition W o P g.name g.value
+      dfItems W L o P excluded conflicts rest (match add with
+        | some x => { a with addition := a.addition ++ [(g.name, x)] } | none => a)
+    | some f =>
+      if W.noInput f.id g.value then
+        dfItems W L o P excluded conflicts rest (match f.default with | some d => a.set f.id d | none => a)
+      else do
+        -- reported only for a field that does take the input
+        if conflicts.contains f.id && !o.ignoreAliasConflicts then
+          handleError o (mk K.aliasConflict Site.aliasConflict (some f.id))
+        else pure ()
+        if excluded.contains f.id then dfItems W L o P excluded conflicts rest a
+        else do
+          let parsed ← parseValue W L o f g.value true
+          match parsed with
+          | .excluded => dfItems W L o P excluded conflicts rest { a with excluded := a.excluded ++ [f.id] }
+          | .unprovided => dfItems W L o P excluded conflicts rest a
+          | .val x => dfItems W L o P excluded conflicts rest { (a.set f.id x) with deps := a.deps || f.hasDeps }
+
+/-- required / default pass over the declared fields, base.py:518-530 (runs under ignore_required too:
+no field is required then, the defaults still apply) -/
+def dfMissing (o : Opts) (excluded : List Nat) (given : List Nat) : List (FieldDecl V) → Acc V → M (Acc V)
   | [], a => pure a
   | f :: fs, a =>
-    if a.has f.id || excluded.contains f.id then dfMissing o excluded fs a
+    if (given.contains f.id && !a.excluded.contains f.id) || excluded.contains f.id then
+      dfMissing o excluded given fs a
     else if f.isRequired o then do
       handleError o (mk K.absence Site.absence (some f.id))
-      dfMissing o excluded fs a
-    else dfMissing o excluded fs (match f.default with | some d => a.set f.id d | none => a)
+      dfMissing o excluded given fs a
+    else dfMissing o excluded given fs (match f.default with | some d => a.set f.id d | none => a)
 
 def depsCheck (W : DataWorld V) (o : Opts) (a : Acc V) : M Unit :=
   if a.deps && W.depsLack (a.result.map (·.1)) then
@@ -184,20 +233,22 @@ def depsCheck (W : DataWorld V) (o : Opts) (a : Acc V) : M Unit :=
 
 def dataFirstParse (W : DataWorld V) (L : Legacy) (o : Opts) (P : ParserDecl V) (excluded : List Nat)
     (data : List (Nat × V)) : M (List (Nat × V)) := do
-  let a ← dfItems W L o P excluded data {}
-  let a ← if o.ignoreRequired then pure a else dfMissing o excluded P.fields a
+  let (inputs, conflicts) ← dfScan W L P data [] []
+  let a ← dfItems W L o P excluded conflicts inputs {}
+  let a ← dfMissing o excluded (inputs.map (·.name)) P.fields a
   depsCheck W o a
   pure (a.result ++ a.addition)
 
-/-! ### field_first_parse — base.py:512-619 -/
+/-! ### field_first_parse — base.py:562-700 -/
 
-/-- scan the remaining aliases that are present: a differing value is an AliasConflictError and ends the scan -/
-def ffConflicts (W : DataWorld V) (L : Legacy) (o : Opts) (f : FieldDecl V) (value : V) : List V → M Unit
-  | [] => pure ()
+/-- scan the remaining aliases that are present: the first differing value is the conflict and ends the scan.
+(The letter-case pre-pass, base.py:571-590, belongs to the key lookup that is abstracted here.) -/
+def ffConflicts (W : DataWorld V) (L : Legacy) (value : V) : List V → M Bool
+  | [] => pure false
   | x :: xs => do
     let c ← aliasConflict W L x value
-    if c then handleError o (mk K.aliasConflict Site.aliasConflict (some f.id))   -- `break`
-    else ffConflicts W L o f value xs
+    if c then pure true                    -- `conflict = data[alias]; break`
+    else ffConflicts W L value xs
 
 def ffFields (W : DataWorld V) (L : Legacy) (o : Opts) (excluded : List Nat) (data : List (Nat × V)) :
     List (FieldDecl V) → Acc V → M (Acc V)
@@ -214,15 +265,20 @@ def ffFields (W : DataWorld V) (L : Legacy) (o : Opts) (excluded : List Nat) (da
           ffFields W L o excluded data fs a
         else ffFields W L o excluded data fs (match f.default with | some d => a.set f.id d | none => a)
       | value :: more => do
-        if o.ignoreAliasConflicts then pure () else ffConflicts W L o f value more
+        let conflict ← if o.ignoreAliasConflicts then pure false else ffConflicts W L value more
         let a := { a with used := a.used ++ f.aliases }
         if W.noInput f.id value then
           ffFields W L o excluded data fs (match f.default with | some d => a.set f.id d | none => a)
         else do
-          let parsed ← parseValue W L o f value
+          -- reported only for a field that does take the input
+          if conflict then handleError o (mk K.aliasConflict Site.aliasConflict (some f.id)) else pure ()
+          let parsed ← parseValue W L o f value true
           match parsed with
-          | none => ffFields W L o excluded data fs a
-          | some x => ffFields W L o excluded data fs { (a.set f.id x) with deps := a.deps || f.hasDeps }
+          | .excluded =>
+            -- dropped by the 'exclude' policy: as a field that was not given (its default applies)
+            ffFields W L o excluded data fs (match f.default with | some d => a.set f.id d | none => a)
+          | .unprovided => ffFields W L o excluded data fs a
+          | .val x => ffFields W L o excluded data fs { (a.set f.id x) with deps := a.deps || f.hasDeps }
 
 def ffAddition (W : DataWorld V) (o : Opts) (P : ParserDecl V) (used : List Nat) :
     List (Nat × V) → List (Nat × V) → M (List (Nat × V))
@@ -322,8 +378,8 @@ def posArgs (W : DataWorld V) (L : Legacy) (o : Opts) (F : FuncDecl V) :
         if W.noInput f.id x then
           posArgs W L o F xs (i + 1) (match f.default with | some d => args ++ [d] | none => args) keys
         else do
-          let r ← parseValue W L o f x
-          posArgs W L o F xs (i + 1) (match r with | some y => args ++ [y] | none => args) (keys ++ [f.id])
+          let r ← parseValue W L o f x        -- excluded_as_absent=False: an excluded value is its default
+          posArgs W L o F xs (i + 1) (match r with | .val y => args ++ [y] | _ => args) (keys ++ [f.id])
       | none =>
         if F.excludeIndexes.contains i then posArgs W L o F xs (i + 1) (args ++ [x]) keys
         else posArgs W L o F xs (i + 1) args keys
